@@ -1,0 +1,50 @@
+//go:build verif
+
+// Verification hooks: exported wrappers around unexported functions.
+// Compiled only with `-tags verif`; add-only, no existing line is changed.
+package strategy
+
+import (
+	"time"
+
+	"github.com/go-logr/logr"
+	corev1 "k8s.io/api/core/v1"
+	"sigs.k8s.io/controller-runtime/pkg/client"
+
+	datadoghqv1alpha1 "github.com/DataDog/extendeddaemonset/api/v1alpha1"
+)
+
+// VerifManageCanaryStatus exposes manageCanaryStatus with an explicit evaluation instant.
+func VerifManageCanaryStatus(annotations map[string]string, params *Parameters, now time.Time) *Result {
+	return manageCanaryStatus(annotations, params, now)
+}
+
+// VerifCalculateMaxCreation exposes calculateMaxCreation.
+func VerifCalculateMaxCreation(params *datadoghqv1alpha1.ExtendedDaemonSetSpecStrategyRollingUpdate, nbNodes int, rsStartTime, now time.Time) (int, error) {
+	return calculateMaxCreation(params, nbNodes, rsStartTime, now)
+}
+
+// VerifGetRollingUpdateStartTime exposes getRollingUpdateStartTime.
+func VerifGetRollingUpdateStartTime(status *datadoghqv1alpha1.ExtendedDaemonSetReplicaSetStatus, now time.Time) time.Time {
+	return getRollingUpdateStartTime(status, now)
+}
+
+// VerifCompareCurrentPodWithNewPod exposes compareCurrentPodWithNewPod.
+func VerifCompareCurrentPodWithNewPod(params *Parameters, pod *corev1.Pod, node *NodeItem) bool {
+	return compareCurrentPodWithNewPod(params, pod, node)
+}
+
+// VerifCleanupPods exposes cleanupPods.
+func VerifCleanupPods(c client.Client, logger logr.Logger, status *datadoghqv1alpha1.ExtendedDaemonSetReplicaSetStatus, pods []*corev1.Pod) error {
+	return cleanupPods(c, logger, status, pods)
+}
+
+// VerifDeletePodSlice exposes deletePodSlice.
+func VerifDeletePodSlice(c client.Client, logger logr.Logger, podsToDelete []*corev1.Pod) []error {
+	return deletePodSlice(c, logger, podsToDelete)
+}
+
+// VerifEnsureCanaryPodLabels exposes ensureCanaryPodLabels.
+func VerifEnsureCanaryPodLabels(c client.Client, params *Parameters) error {
+	return ensureCanaryPodLabels(c, params)
+}
